@@ -310,10 +310,18 @@ func runChunk(self string, raceBin string, id, tier string, seed int64, work str
 		bin = raceBin
 	}
 	var cs []string
-	for _, c := range job.cases {
+	consecutive := len(job.cases) > 1
+	for i, c := range job.cases {
 		cs = append(cs, strconv.Itoa(c))
+		if i > 0 && c != job.cases[i-1]+1 {
+			consecutive = false
+		}
 	}
-	args := []string{"child", "-id", id, "-tier", tier, "-seed", strconv.FormatInt(seed, 10), "-mode", job.mode.name, "-cases", strings.Join(cs, ",")}
+	caseArg := strings.Join(cs, ",")
+	if consecutive {
+		caseArg = fmt.Sprintf("%d-%d", job.cases[0], job.cases[len(job.cases)-1])
+	}
+	args := []string{"child", "-id", id, "-tier", tier, "-seed", strconv.FormatInt(seed, 10), "-mode", job.mode.name, "-cases", caseArg}
 	var cmd *exec.Cmd
 	if job.mode.netns {
 		sh := "ip link set lo up; ip link set lo multicast on 2>/dev/null; ip route add 224.0.0.0/4 dev lo 2>/dev/null; exec \"$0\" \"$@\""
